@@ -266,6 +266,21 @@ def handle (op : String) (j : Json) : Except String Json := do
                       ("fold", excOr9 intJ (foldlExc (fun (acc : Int) (p : Int × Str) =>
                         (intParse p.2).bind (fun v => .ok (acc * 3 + v + p.1))) 1 ps))])
   -- --- end T9
+  -- --- T19: `str.strip()`, the sum-splitting regular expression
+  | "t19_text" =>
+    let s ← strOf (← field j "s")
+    pure (Json.mkObj [("strip", strJ (stripWs s)), ("resplit", Json.arr ((reSplitPlus s).map strJ).toArray)])
+  | "t19_hset" =>
+    let dec := fun (o : Json) => do
+      match (← arrOfJson o) with
+      | [h, c] => pure ((← intOfJson h), (← intOfJson c))
+      | _ => throw "pair expected"
+    let xs ← listOfJson dec (← field j "xs"); let ys ← listOfJson dec (← field j "ys")
+    let hf := fun (p : Int × Int) => p.1
+    let ef := fun (p q : Int × Int) => p.2 == q.2
+    pure (Json.mkObj [("len", intJ ((setOfHashables hf ef xs).length : Int)),
+                      ("eq", Json.bool (setEqHashables hf ef (setOfHashables hf ef xs) (setOfHashables hf ef ys)))])
+  -- --- end T19
   -- --- T11: `sorted(xs)` of ints
   | "t11_sorted" => pure (intsToJson (sortedInts (← listOfJson intOfJson (← field j "xs"))))
   -- --- end T11
